@@ -141,6 +141,7 @@ def run(ctx):
                    f.loc(), derived=T.show(g, 200))
         fstep, dstep = grid("frequency_step"), grid("direction_step")
         # body == SUM gen*df*dd - bulk - SUM ite(gen>0, dEdt*dd*df, 0)
+        body = _vector_sums_as_loops(body, (g, E, dEdt), (fstep, dstep))
         parts = list(body.args) if isinstance(body, sp.Add) else [body]
         sums = [a for a in parts if T.find_ops(a, "loopsum")]
         rest = sp.Add(*[a for a in parts if a not in sums])
@@ -331,3 +332,51 @@ def run(ctx):
     ctx.require_count("R11.4", 4)
     ctx.require_count("R11.5", 3)
     ctx.require_count("R11.6", 2)
+
+
+def _vector_sums_as_loops(t, arrays2d, arrays1d):
+    """np.sum(<element-wise expression over the (frequency, direction) grid>) written as the double loop it abbreviates, so that
+    one rule covers both spellings.  2-D operands are the listed arrays, 1-D operands broadcast along the last axis unless an
+    axis was inserted (x[:, None], np.expand_dims(x, 1))."""
+    from ..terms import NONE_T
+    fv, dv = sp.Symbol("~f"), sp.Symbol("~d")
+    full = op("slc", NONE_T, NONE_T, NONE_T)
+
+    def elem(x):
+        if x.is_number:
+            return x
+        if x in arrays2d:
+            return op("item", x, sp.Tuple(fv, dv))
+        if x in arrays1d:
+            return op("item", x, dv)
+        f_ = fname(x)
+        if f_ == "expand_dims" and x.args[0] in arrays1d and x.args[1].is_Integer:
+            return op("item", x.args[0], fv if int(x.args[1]) in (1, -1) else dv)
+        if f_ == "item" and x.args[0] in arrays1d and isinstance(x.args[1], sp.Tuple) and len(x.args[1].args) == 2:
+            a, b = x.args[1].args
+            if a == full and b == NONE_T:
+                return op("item", x.args[0], fv)
+            if a == NONE_T and b == full:
+                return op("item", x.args[0], dv)
+        if isinstance(x, (sp.Add, sp.Mul)):
+            return x.func(*[elem(a) for a in x.args])
+        if isinstance(x, sp.Pow) and x.args[1].is_number:
+            return elem(x.args[0]) ** x.args[1]
+        if f_ in ("where", "ite") and len(x.args) == 3:
+            return T.ITE(elem(x.args[0]), elem(x.args[1]), elem(x.args[2]))
+        if f_ in ("lt", "ge", "eq", "ne") and len(x.args) == 2:
+            return CMP(f_, elem(x.args[0]), elem(x.args[1]))
+        raise ValueError(x)
+
+    def fn(n):
+        if fname(n) in ("sum", "nansum") and len(n.args) == 2 and n.args[1] == NONE_T and any(a in n.args[0].free_symbols or n.args[0].has(a)
+                                                                                             for a in arrays2d):
+            try:
+                X = elem(n.args[0])
+            except ValueError:
+                return None
+            ref = next(a for a in arrays2d if n.args[0].has(a))
+            inner = op("loopsum", X, dv, op("range", op("item", op("shape", ref), sp.Integer(1))))
+            return op("loopsum", inner, fv, op("range", op("item", op("shape", ref), sp.Integer(0))))
+        return None
+    return T.rewrite(T.to_term(t), fn)
